@@ -188,6 +188,18 @@ func runOnce(input string) string {
 	case "pfx":
 		return runPfx(kv)
 	case "flt":
+		// a decoder that passes over a failed seek reads the end of the file again and again: the seek cases run in a
+		// child process, which can be killed
+		if kv["mode"] == "seek" && os.Getenv("C13_IN_CHILD") == "" {
+			f, err := os.CreateTemp("", "c13-case-*.txt")
+			if err != nil {
+				return "HARNESSERR " + err.Error()
+			}
+			defer os.Remove(f.Name())
+			_, _ = f.WriteString(input)
+			_ = f.Close()
+			return runChild("case", f.Name())
+		}
 		return runFlt(kv)
 	case "conf":
 		return runConf(kv)
@@ -268,11 +280,18 @@ func childMain(mode string, args []string) {
 				done <- runGenJSON(kv, data)
 				return
 			}
+			if kv["k"] == "flt" {
+				done <- runFlt(kv)
+				return
+			}
 			done <- runAmmo(kv, data)
 		}()
 		wait := 15 * time.Second
 		if kv["k"] == "genjson" {
 			wait = 10 * time.Second // driveProvider's own watchdog (8 s) answers first
+		}
+		if kv["k"] == "flt" {
+			wait = 20 * time.Second // two provider runs, each under driveProvider's watchdog
 		}
 		select {
 		case o := <-done:
